@@ -777,7 +777,7 @@ def c07(ck):
         if c["mode"] == "deadline":
             src = c["src"]
             # the outermost try has a plain-value handler, an endless body and no endless finally: the handler's value
-            m = re.match(r"^\(try (\(lp 0\)|\(rcl\)|\(spin\)|\(sleep 100000\)|@\(future \(sleep 100000\)\)|\(eval '\(lp 0\)\)|\(eval \(list 'sleep 100000\)\)|\(let \[fc \(future \(busy! 30000\)\)\] \(future-cancel fc\) @fc\)) \(catch e \(trace! :hh\) :h\)( \(finally \(trace! :ff\) :h\))?\)$", src)
+            m = re.match(r"^\(try (\(lp 0\)|\(rcl\)|\(spin\)|\(sleep 100000\)|@\(future \(sleep 100000\)\)|\(eval '\(lp 0\)\)|\(eval \(list 'sleep 100000\)\)|\(let \[fc \(future \(busy! 30000\)\)\] \(future-cancel fc\) @fc\)|\(swap! spa \(fn \[v\] \(reset! spa \(\+ v 1\)\) v\)\)) \(catch e \(trace! :hh\) :h\)( \(finally \(trace! :ff\) :h\))?\)$", src)
             if m:
                 c["opt"] = {"expect": "value", "effects": ":hh" + (" :ff" if m.group(2) else "")}
             elif "try" not in src:
@@ -785,7 +785,7 @@ def c07(ck):
     canc = [c for c in cases if c["mode"] == "cancel"]
     dl = [c for c in cases if c["mode"] == "deadline"]
     if ck.quick:
-        dl = dl[::3] + [c for c in dl if c.get("opt", {}).get("expect") == "value"][:4]
+        dl = dl[::3] + [c for c in dl if c.get("opt", {}).get("expect") == "value"][:4] + [c for c in dl if "try" not in c["src"]]
         dl = list({c["id"]: c for c in dl}.values())
     ck.replay(canc, args=["-workers", "1"], timeout=3000)
     ck.replay(dl, args=["-workers", "48"], timeout=3000, double_check=False)
